@@ -913,6 +913,53 @@ Section Proofs.
     rewrite Hfix. unfold prefix_of. reflexivity.
   Qed.
 
+  (* titles whose text before the first colon is NOT a name of the site (for instance a namespace name that only another
+     wiki defines: "Portal:x" on a wiki without portal namespace): the whole text is an ordinary page name of the default
+     namespace (the main namespace after a leading colon).  not_a_name: no local name, canonical name or alias of the
+     site equals the prefix the way _find_namespace compares (lower-cased, stripped). *)
+  Definition not_a_name (st : site) (a : str) : Prop :=
+    let key := py_strip (lower a) in
+    find (fun e => str_eqb (lower (ns_star e)) key || str_eqb (lower (canon_or_empty e)) key) (s_namespaces st) = None /\
+    find (fun al => str_eqb (lower (snd al)) key) (s_aliases st) = None.
+
+  Lemma find_namespace_not_a_name st a d Ld : not_a_name st a -> star_of st d = Some Ld ->
+    find_namespace st a d = Ok (false, d, Ld).
+  Proof. intros [H1 H2] HL. unfold Model.find_namespace. rewrite H1, H2, HL. reflexivity. Qed.
+
+  Theorem splitname_spelling_foreign st p P' E1 C E4 dns d Ld a b :
+    Forall edge' E1 -> Forall edge' (match C with Some E2 => E2 | None => [] end) -> Forall edge' E4 ->
+    tidy p -> head_not_colon p -> squeeze (repl_us P') = p ->
+    d = (match C with Some _ => 0%Z | None => dns end) -> star_of st d = Some Ld ->
+    split1 c_colon (maybe_capitalize (s_capitalize st) p) = Some (a, b) -> not_a_name st a ->
+    splitname st (E1 ++ lead C ++ P' ++ E4) dns
+    = Ok (d, maybe_capitalize (s_capitalize st) p, prefix_of Ld ++ maybe_capitalize (s_capitalize st) p).
+  Proof.
+    intros HE1 HC HE4 Htp Hph Ezp Hd HLd Hsplit Hnot.
+    pose proof (repl_edge' _ HE1) as HE1r. pose proof (repl_edge' _ HE4) as HE4r. pose proof (repl_edge' _ HC) as HCr.
+    set (zp := repl_us P') in *. set (E1r := repl_us E1) in *. set (E4r := repl_us E4) in *.
+    assert (Hzp : ends_ok is_edge zp) by (destruct Htp as [_ [_ Hp]]; exact (proj1 (squeeze_ends_inv is_edge zp p Ezp Hp))).
+    assert (Hpre : pre_name st (E1 ++ lead C ++ P' ++ E4) dns = (maybe_capitalize (s_capitalize st) p, d)).
+    { unfold pre_name. rewrite !repl_us_app. fold zp E1r E4r. destruct C as [E2|]; cbn [lead].
+      - assert (Hc2 : repl_us (c_colon :: E2) = c_colon :: repl_us E2) by reflexivity. rewrite Hc2. clear Hc2. cbn [app].
+        set (E2r := repl_us E2) in *.
+        destruct (tail_norm E2r zp E4r p HCr HE4r Ezp Htp) as [HU HUl].
+        assert (Hstrip : strip_edges (E1r ++ c_colon :: E2r ++ zp ++ E4r) = c_colon :: rstrip is_edge (E2r ++ zp ++ E4r)).
+        { unfold Model.strip_edges, strip. rewrite lstrip_app_all by exact HE1r. rewrite lstrip_stop by apply edge_colon.
+          change (c_colon :: E2r ++ zp ++ E4r) with ([] ++ c_colon :: E2r ++ zp ++ E4r). rewrite rstrip_mid by apply edge_colon. reflexivity. }
+        rewrite Hstrip. cbn [squeeze]. cbn [N.eqb c_colon c_space Pos.eqb andb]. cbn [length]. cbn [Model.drop_colons]. rewrite N.eqb_refl.
+        rewrite HU. rewrite (drop_colons_step_id _ p Hph). cbn [fst snd]. rewrite Hd. reflexivity.
+      - change (repl_us []) with (@nil N). cbn [app].
+        assert (Hstrip : strip_edges (E1r ++ zp ++ E4r) = zp).
+        { unfold Model.strip_edges, strip. rewrite lstrip_app_all by exact HE1r. exact (strip_app_all_r is_edge zp E4r Hzp HE4r). }
+        rewrite Hstrip, Ezp. rewrite drop_colons_id by exact Hph. cbn [fst snd]. rewrite Hd. reflexivity. }
+    rewrite splitname_core, Hpre. cbn [fst snd]. unfold core.
+    destruct (cap_tidy (s_capitalize st) p Htp) as [Tc [Fc _]].
+    rewrite Hsplit. rewrite (find_namespace_not_a_name st a d Ld Hnot HLd). unfold Model.finish.
+    assert (Hfix : maybe_capitalize (s_capitalize st) (maybe_capitalize (s_capitalize st) p) = maybe_capitalize (s_capitalize st) p).
+    { destruct (s_capitalize st) eqn:E; [apply Fc; reflexivity | reflexivity]. }
+    rewrite Hfix. unfold prefix_of. reflexivity.
+  Qed.
+
   (* the constructive reading of "underscores or runs of spaces": y spells x when every space of x is written as a
      non-empty run of ' ' / '_' and every other character is kept *)
   Inductive expands : str -> str -> Prop :=
